@@ -52,6 +52,9 @@ type Prop struct {
 	KeyOf func(c *Case, impl string) string
 	// Timeout per case for the implementation.
 	Timeout time.Duration
+	// SpecDiffers decides whether the implementation's answer contradicts the specification's
+	// answer to SpecReq (nil: plain string inequality).
+	SpecDiffers func(c *Case, want, impl string) bool
 	// Direct is an optional in-process sweep (needs no model); it appends to the report.
 	Direct func(g *G, r *Report)
 	// Canon optionally canonicalises the implementation's answer before any comparison
@@ -203,7 +206,7 @@ func corrMain(args []string) {
 			note := c.Note
 			// (1) the property oracle: a concrete failing input
 			var v *Viol
-			if want, ok := spec[i]; ok && want != impl[i] {
+			if want, ok := spec[i]; ok && (p.SpecDiffers == nil && want != impl[i] || p.SpecDiffers != nil && p.SpecDiffers(c, want, impl[i])) {
 				v = &Viol{What: "implementation differs from the specification", Want: want}
 			} else if p.Oracle != nil {
 				v = p.Oracle(c, impl[i])
